@@ -116,3 +116,23 @@ let handle (x : t) : (int * string list) option =
   match x with
   | L [I 3; f; path; alts] -> Some (cmd_cache f path alts)
   | _ -> None
+
+(* (5 <filter> (<listed objs>) ((etype obj)...) (final ids))
+   the quiescent outcome of the watch path: the list, then the whole log in
+   order (Watcher.watch_outcome) *)
+let cmd_watch f listed log final =
+  let f = d_filter f in
+  let listed = d_list d_obj listed in
+  let log = d_list (function L [ty; o] -> { ev_ty = ety_to (d_int ty); ev_obj = d_obj o } | _ -> bad "log entry") log in
+  let final = List.sort compare (d_list d_int final) in
+  match watch_outcome (accept f) listed log with
+  | Panic -> (1, ["kind=panic the model panics on the initial list"])
+  | Ok c ->
+    let m = ids_of_cache c in
+    if m = final then (1 + List.length log, [])
+    else (1 + List.length log, [Printf.sprintf "kind=content quiescent watch outcome impl=[%s] model=[%s]" (str_ids final) (str_ids m)])
+
+let handle (x : t) : (int * string list) option =
+  match x with
+  | L [I 5; f; listed; log; final] -> Some (cmd_watch f listed log final)
+  | _ -> handle x
